@@ -89,6 +89,10 @@ def lit_seq(draw, flavor, min_len=0):
     items = [lit_item(draw, flavor) for _ in range(n)]
     if n >= 2 and draw(_upto(9)) < 4:       # force a duplicate
         items[draw(_upto(n - 1))] = items[draw(_upto(n - 1))]
+    if n >= 2 and flavor in 'nm' and draw(_upto(9)) == 0:      # several NaN (NaN = NaN only for distinct-values)
+        nan = _sf(draw, [['dbl', 'NaN'], ['dbl', 'NaN'], ['flt', 'NaN']])
+        items[draw(_upto(n - 1))] = nan
+        items[draw(_upto(n - 1))] = nan if draw(_upto(3)) else ['dbl', 'NaN']
     if n == 1 and (draw(_upto(1)) == 1):
         return items[0]
     return ['seq', *items]
